@@ -59,7 +59,7 @@ DATASETS = [
     {'family': 'cf1d', 'ny': 3, 'nx': 4, 'ints': True},
     {'family': 'cf2d', 'ny': 3, 'nx': 3, 'geometry': 'skew', 'holes': 'corner'},
     {'family': 'shoc_simple', 'ny': 3, 'nx': 3},
-    {'family': 'shoc_standard', 'nj': 3, 'ni': 3, 'ints': True},
+    {'family': 'shoc_standard', 'nj': 3, 'ni': 3, 'ints': True, 'dry': 'corner'},
     {'family': 'ugrid', 'mesh': 'M7', 'supplied': ['edge_node'], 'ints': True},
 ]
 
@@ -79,9 +79,13 @@ def cases(tier):
     for spec in DATASETS:
         out.append({'part': 'clip', 'spec': spec})
         out.append({'part': 'export', 'spec': spec})
+        if spec.get('holes') or spec.get('dry') or spec['family'] == 'ugrid':
+            out.append({'part': 'export', 'spec': spec, 'encoded': True})
+            out.append({'part': 'clip', 'spec': spec, 'encoded': True})
         for length in ((1, 2) if tier == 'quick' else (1, 2, 3)):
             for policy in ('error', 'drop', 'fill'):
-                out.append({'part': 'extract', 'spec': spec, 'length': length, 'policy': policy})
+                for first in ('hit', 'tie', 'miss', 'blank'):
+                    out.append({'part': 'extract', 'spec': spec, 'length': length, 'policy': policy, 'first': first})
     out.append({'part': 'subprocess'})
     return out
 
@@ -184,7 +188,10 @@ def matches_memory(path, expected: xr.Dataset) -> tuple[bool, str]:
                 return False, f"{name}: dims {a.dims} vs {b.dims}"
             av, bv = np.asarray(a.values), np.asarray(b.values)
             if av.dtype.kind in 'OUS' or bv.dtype.kind in 'OUS':
-                if [str(v) for v in av.ravel()] != [str(v) for v in bv.ravel()]:
+                def text(v):
+                    # a missing string (blank table cell) is NaN / None in memory and an empty string in a netCDF file
+                    return '' if v is None or (isinstance(v, float) and v != v) else str(v)
+                if [text(v) for v in av.ravel()] != [text(v) for v in bv.ravel()]:
                     return False, f"{name}: {av.tolist()} vs {bv.tolist()}"
             elif av.dtype.kind == 'M':
                 if not np.array_equal(av.astype('datetime64[ns]'), bv.astype('datetime64[ns]')):
@@ -194,9 +201,16 @@ def matches_memory(path, expected: xr.Dataset) -> tuple[bool, str]:
         return True, ''
 
 
-def write_source(spec, tmp):
+def write_source(spec, tmp, encoded=False):
     ds, truth = builders.build(spec)
     path = os.path.join(tmp, 'source.nc')
+    if encoded:
+        # EMS style files: missing coordinates are written as 1e35, not NaN; whole variables may be packed
+        for name in truth.geometry_names:
+            if name in ds.variables and ds[name].dtype.kind == 'f':
+                ds[name].encoding['_FillValue'] = 1e35
+        for name in ('botz',):
+            ds[name].encoding.update({'dtype': 'int32', 'scale_factor': 0.5, 'add_offset': 100.0, '_FillValue': -2147483647})
     ds.to_netcdf(path)
     return path, truth
 
@@ -209,10 +223,15 @@ def run_clip(case, rec):
     import emsarray
     fp = f"C20/clip/{case['spec']['family']}"
     with env.scratch_dir() as tmp:
-        source, truth = write_source(case['spec'], tmp)
+        source, truth = write_source(case['spec'], tmp, encoded=case.get('encoded', False))
         polys = ref.ref_polygons(truth)
         geoms, _ = c07.palette(truth, polys)
         variants = []
+        # a polygon with many vertices: its GeoJSON text is longer than a file name may be
+        ring = list(geoms['everything'].exterior.coords)
+        (ax, ay), (bx, by) = ring[0], ring[1]
+        dense = [(ax + (bx - ax) * k / 64, ay + (by - ay) * k / 64) for k in range(64)] + ring[1:]
+        variants.append(('long-geojson-string', json.dumps(mapping(shapely.Polygon(dense))), shapely.Polygon(dense)))
         for name in ('tiny', 'everything', 'cell-envelope'):
             g = geoms[name]
             b = g.bounds
@@ -260,7 +279,7 @@ def run_export(case, rec):
     writers = {'geojson': geometry.write_geojson, 'shapefile': geometry.write_shapefile, 'wkt': geometry.write_wkt, 'wkb': geometry.write_wkb}
     extensions = {'geojson': ['.geojson', '.json'], 'shapefile': ['.shp'], 'wkt': ['.wkt'], 'wkb': ['.wkb']}
     with env.scratch_dir() as tmp:
-        source, truth = write_source(case['spec'], tmp)
+        source, truth = write_source(case['spec'], tmp, encoded=case.get('encoded', False))
         dataset = emsarray.open_dataset(source)
         n = 0
         for fmt_name, writer in writers.items():
@@ -306,7 +325,10 @@ def run_extract(case, rec):
         symbols = point_symbols(truth)
         polys = symbols['_polys']
         n = 0
-        for combo in itertools.product(('hit', 'tie', 'miss'), repeat=case['length']):
+        symbols['blank'] = shapely.Point(float('nan'), float('nan'))
+        for combo in itertools.product(('hit', 'tie', 'miss', 'blank'), repeat=case['length']):
+            if combo[0] != case['first']:
+                continue
             points = [symbols[s] for s in combo]
             misses = [k for k, p in enumerate(points) if not ref.brute_hits(polys, p)]
             hits = [k for k in range(len(points)) if k not in misses]
@@ -322,6 +344,10 @@ def run_extract(case, rec):
                 lon_col, lat_col, dim = ('x', 'y', 'station') if custom else ('lon', 'lat', 'point')
                 frame = pandas.DataFrame({lon_col: [p.x for p in points], lat_col: [p.y for p in points],
                                           'name': [f'site-{combo[k]}' if identical_rows else f'row{k}' for k in range(len(points))]})
+                # a blank symbol is a completely empty line of the table (",,")
+                for k, sym in enumerate(combo):
+                    if sym == 'blank':
+                        frame.loc[k, 'name'] = None
                 csv = os.path.join(tmp, f'points-{n}.csv')
                 frame.to_csv(csv, index=False)
                 cli_out = os.path.join(tmp, f'cli-{n}.nc')
@@ -352,7 +378,7 @@ def run_extract(case, rec):
                 which = 'file-differs-from-returned-values' + ('-fill-integer' if policy == 'fill' and misses else '')
                 rec.check(same, f"{fp}/{which}", f"{label}: file content differs from what extract_dataframe returned", 'equal values', why)
                 dataset.close()
-    rec.outcome(['extract', case['spec']['family'], case['length'], policy])
+    rec.outcome(['extract', case['spec']['family'], case['length'], policy, case['first']])
 
 
 def run_subprocess(case, rec):
